@@ -5,6 +5,7 @@ import (
 	"go/constant"
 	"go/token"
 	"go/types"
+	"sort"
 
 	"golang.org/x/tools/go/ssa"
 
@@ -337,7 +338,79 @@ var ruleTar = &core.Rule{ID: "R18.1", Min: 8,
 				}
 			}
 		}
+		if !rej {
+			// any other spelling (a range test, a disjunction): with the parser answering -1 every path from the call
+			// on must reject, whatever the other conditions say
+			ev := newEval(c)
+			ev.Env = fde.Env{m.octal: constant.MakeInt64(-1)}
+			if exits, err := ev.Walk(m.octal.Block(), nil, nil, 8); err == nil && len(exits) > 0 {
+				all := true
+				for _, x := range exits {
+					if x.Ret == nil {
+						all = false
+						continue
+					}
+					if v, ok := x.ValAt(ev, x.Ret.Results[0]); !ok || v.Kind() != constant.Bool || constant.BoolVal(v) {
+						all = false
+					}
+				}
+				rej = all
+			}
+		}
 		s.Check(rej, "unparseable checksum field rejects", c.Pos(f.Pos()), "recsum == -1 => false", "a checksum field that is not an octal number does not reject the input")
+		// and nothing else about the recorded number rejects by itself: every value a header can add up to (0 for the
+		// signed sum of high bytes up to 8*' ' + 504*0xFF) leaves an accepting path open, the comparison with the
+		// computed sums deciding. Tabulated over the values around the constants the number is compared with.
+		const maxSum = 8*32 + 504*255
+		vals := map[int64]bool{0: true, 1: true, 255: true, 256: true, maxSum: true}
+		for _, ref := range *m.octal.Referrers() {
+			if bo, ok := ref.(*ssa.BinOp); ok {
+				for _, o := range []ssa.Value{bo.X, bo.Y} {
+					if k, ok := core.ConstInt(o); ok {
+						for _, d := range []int64{-1, 0, 1} {
+							if k+d >= 0 && k+d <= maxSum {
+								vals[k+d] = true
+							}
+						}
+					}
+				}
+			}
+		}
+		var sorted []int64
+		for v := range vals {
+			sorted = append(sorted, v)
+		}
+		sort.Slice(sorted, func(i, j int) bool { return sorted[i] < sorted[j] })
+		badVal, undec := int64(-1), ""
+		for _, v := range sorted {
+			ev := newEval(c)
+			ev.Env = fde.Env{m.octal: constant.MakeInt64(v)}
+			exits, err := ev.Walk(m.octal.Block(), nil, nil, 8)
+			if err != nil || len(exits) == 0 {
+				undec = fmt.Sprintf("recorded checksum %d: not evaluable (%v)", v, err)
+				break
+			}
+			open := false
+			for _, x := range exits {
+				if x.Ret == nil {
+					open = true
+					continue
+				}
+				if rv, ok := x.ValAt(ev, x.Ret.Results[0]); !ok || rv.Kind() != constant.Bool || constant.BoolVal(rv) {
+					open = true
+				}
+			}
+			if !open {
+				badVal = v
+			}
+		}
+		switch {
+		case undec != "":
+			s.Und("no recorded checksum is rejected by its value alone", c.Pos(f.Pos()), undec)
+		default:
+			s.Check(badVal < 0, "no recorded checksum is rejected by its value alone", c.Pos(f.Pos()), fmt.Sprintf("%d values between 0 and %d leave acceptance to the comparison with the computed sums", len(sorted), maxSum),
+				fmt.Sprintf("a header whose recorded checksum is %d is rejected whatever its bytes add up to: archives with many high bytes in the header (non-ASCII names, base-256 numbers) reach sums up to %d", badVal, maxSum))
+		}
 		_ = types.Typ
 	}}
 
